@@ -24,6 +24,7 @@ RunOk(e) ==
       g == IF e.gen = "missing" /\ xc = 0 THEN 1 ELSE 0
       x == xc + g IN
   /\ ~e.timed_out
+  /\ xc >= e.min_errors                                      \* (the model's own lower bound for the program)
   /\ e.json_ok                                               \* JSON: one self-contained five-key object per line, nothing else
   /\ Len(e.records) = Len(shown) + g
   /\ SubSeq(e.records, 1, Len(shown)) = shown                \* complete, exactly once, in order, code / message / location / notes
